@@ -127,3 +127,12 @@ Definition split_on (sep : ascii) (s : string) : list string := map str (split_o
 
 Fixpoint repeat_char (c : ascii) (n : nat) : list ascii :=
   match n with O => [] | S m => c :: repeat_char c m end.
+
+(* sep.join(fields) for a one-character separator *)
+Fixpoint join_l (sep : ascii) (fs : list (list ascii)) : list ascii :=
+  match fs with
+  | [] => []
+  | [f] => f
+  | f :: r => f ++ sep :: join_l sep r
+  end.
+Definition join (sep : ascii) (fs : list string) : string := str (join_l sep (map chars fs)).
